@@ -27,7 +27,7 @@ READY = False
 TECHNIQUE = (
     "stamping exhaustiveness over all block-node constructions (CFG paths), unit/base kinds of line arithmetic "
     "(L1 / preceding-count / offset / char-index) with a convention table for every nested-render call site, "
-    "shift-once typestate of token.map, lossy join/splitlines lint, PATH-kind of .source stores"
+    "shift-once typestate of token.map, lossy join/splitlines lint, PATH-kind of .source stores, body-head/offset pairing"
 )
 
 META = {
@@ -48,7 +48,9 @@ META = {
         "DirectiveParsingResult.body_offset (and any other difference of two line counts) is not computed across a "
         "'\\n'.join -> splitlines round trip. R5: every store to .source / ['source'] takes a path-kind value and the "
         "include mock's swap of document['source'] / reporter.source / get_source_and_line is the included file and is "
-        "restored in finally from values saved before the try."
+        "restored in finally from values saved before the try. R6: in the function that builds DirectiveParsingResult, every "
+        "statement that removes k leading lines from the body list (slice, pop(0), del) has `offset += k` in the same block, and "
+        "putting the directive-line text in front of the body sets the offset to -1 (body[0] then lies before the first content line)."
     ),
     "not_decided": (
         "the numeric truth of each line for all nestings (only unit/base/convention consistency); which token a node is "
@@ -67,7 +69,7 @@ META = {
     ],
 }
 
-R1, R2, R3, R4, R5 = "C04.R1", "C04.R2", "C04.R3", "C04.R4", "C04.R5"
+R1, R2, R3, R4, R5, R6 = "C04.R1", "C04.R2", "C04.R3", "C04.R4", "C04.R5", "C04.R6"
 
 
 # ---------------------------------------------------------------------------
@@ -1032,23 +1034,44 @@ def _map_stores(fi: FunctionInfo) -> list[tuple[ast.stmt, ast.expr]]:
     return out
 
 
+def _sum_terms(e: ast.expr) -> list[ast.expr]:
+    if isinstance(e, ast.BinOp) and isinstance(e.op, ast.Add):
+        return _sum_terms(e.left) + _sum_terms(e.right)
+    return [e]
+
+
+def _amount_besides(e: ast.expr, base_text: str) -> str | None:
+    """``base + a + b`` -> "a + b" ("0" for the bare base); None when base does not occur exactly once as a summand."""
+    terms = _sum_terms(e)
+    base = [t for t in terms if unparse(t) == base_text]
+    if len(base) != 1:
+        return None
+    rest = [t for t in terms if t is not base[0]]
+    if any(base_text in unparse(t) for t in rest):
+        return None
+    return " + ".join(unparse(t) for t in rest) if rest else "0"
+
+
 def _shift_amount(value: ast.expr, tok: str) -> tuple[str, str] | None:
-    """``[tok.map[0] + A, tok.map[1] + B]`` -> (A, B) as text."""
+    """``[tok.map[0] + A, tok.map[1] + B]`` (or ``[m + A for m in tok.map]``) -> (A, B) as text."""
+    comp = value
+    if isinstance(comp, ast.Call) and dotted(comp.func) in ("list", "tuple") and len(comp.args) == 1 and isinstance(comp.args[0], ast.GeneratorExp):
+        comp = comp.args[0]
+    if isinstance(comp, (ast.ListComp, ast.GeneratorExp)) and len(comp.generators) == 1:
+        gen = comp.generators[0]
+        if unparse(gen.iter) == f"{tok}.map" and isinstance(gen.target, ast.Name) and not gen.ifs:
+            a = _amount_besides(comp.elt, gen.target.id)
+            if a is not None:
+                return a, a
+        return None
     if not (isinstance(value, (ast.List, ast.Tuple)) and len(value.elts) == 2):
         return None
     amt = []
     for i, e in enumerate(value.elts):
-        if unparse(e) == f"{tok}.map[{i}]":
-            amt.append("0")
-            continue
-        if not (isinstance(e, ast.BinOp) and isinstance(e.op, ast.Add)):
+        a = _amount_besides(e, f"{tok}.map[{i}]")
+        if a is None:
             return None
-        sides = [e.left, e.right]
-        base = [s for s in sides if unparse(s) == f"{tok}.map[{i}]"]
-        if len(base) != 1:
-            return None
-        other = sides[1] if sides[0] is base[0] else sides[0]
-        amt.append(unparse(other))
+        amt.append(a)
     return amt[0], amt[1]
 
 
@@ -1489,7 +1512,203 @@ def r5_source_path(corpus: Corpus, rep: Report, tier: str):
     rep.expect_min(R5, 10, ".source stores and the include mock's swap/restore pairs")
 
 
-RULES = [r1_stamping, r2_line_kinds, r3_shift_once, r4_lossy_round_trip, r5_source_path]
+# ---------------------------------------------------------------------------
+# R6 body / body_offset pairing: the offset is the number of content lines before body[0]
+
+
+def _stmt_list_of(st: ast.stmt):
+    p = parent(st)
+    for fld in ("body", "orelse", "finalbody"):
+        lst = getattr(p, fld, None)
+        if isinstance(lst, list) and st in lst:
+            return (id(p), fld), p
+    return (id(p), "?"), p
+
+
+def _enclosing_stmt(n: ast.AST) -> ast.stmt:
+    while not isinstance(n, ast.stmt):
+        n = parent(n)
+    return n
+
+
+def _int_const(e: ast.expr) -> int | None:
+    if isinstance(e, ast.Constant) and isinstance(e.value, int) and not isinstance(e.value, bool):
+        return e.value
+    if isinstance(e, ast.UnaryOp) and isinstance(e.op, ast.USub) and isinstance(e.operand, ast.Constant) and isinstance(e.operand.value, int):
+        return -e.operand.value
+    return None
+
+
+def _head_edits(fi: FunctionInfo, B: str):
+    """(stmt, kind, amount text) for every statement that changes the head of list ``B``; kind = drop | prepend | init | unknown."""
+    out = []
+    for n in fi.local_nodes():
+        if isinstance(n, ast.Assign) and any(isinstance(t, ast.Name) and t.id == B for t in n.targets):
+            v = n.value
+            refs = any(isinstance(x, ast.Name) and x.id == B for x in ast.walk(v))
+            if not refs:
+                out.append((n, "init", ""))
+            elif isinstance(v, ast.Subscript) and isinstance(v.value, ast.Name) and v.value.id == B and isinstance(v.slice, ast.Slice) and v.slice.lower is not None and v.slice.upper is None and v.slice.step is None:
+                out.append((n, "drop", unparse(v.slice.lower)))
+            elif isinstance(v, ast.Subscript) and isinstance(v.value, ast.Name) and v.value.id == B and isinstance(v.slice, ast.Slice) and v.slice.lower is None:
+                pass  # tail trimmed only
+            elif isinstance(v, ast.BinOp) and isinstance(v.op, ast.Add) and isinstance(v.right, ast.Name) and v.right.id == B and isinstance(v.left, ast.List) and not any(isinstance(e, ast.Starred) for e in v.left.elts):
+                out.append((n, "prepend", str(len(v.left.elts))))
+            elif isinstance(v, ast.BinOp) and isinstance(v.op, ast.Add) and isinstance(v.left, ast.Name) and v.left.id == B:
+                pass  # appended at the tail
+            elif isinstance(v, ast.List) and v.elts and isinstance(v.elts[-1], ast.Starred) and isinstance(v.elts[-1].value, ast.Name) and v.elts[-1].value.id == B and not any(isinstance(e, ast.Starred) for e in v.elts[:-1]):
+                out.append((n, "prepend", str(len(v.elts) - 1)))
+            else:
+                out.append((n, "unknown", ""))
+        elif isinstance(n, ast.Delete):
+            for t in n.targets:
+                if isinstance(t, ast.Subscript) and isinstance(t.value, ast.Name) and t.value.id == B:
+                    if _int_const(t.slice) == 0:
+                        out.append((n, "drop", "1"))
+                    elif isinstance(t.slice, ast.Slice) and t.slice.lower is None and t.slice.upper is not None and t.slice.step is None:
+                        out.append((n, "drop", unparse(t.slice.upper)))
+                    elif _int_const(t.slice) == -1:
+                        pass
+                    else:
+                        out.append((n, "unknown", ""))
+        elif isinstance(n, ast.Call) and isinstance(n.func, ast.Attribute) and isinstance(n.func.value, ast.Name) and n.func.value.id == B:
+            m = n.func.attr
+            st = _enclosing_stmt(n)
+            if m == "pop" and n.args and _int_const(n.args[0]) == 0:
+                out.append((st, "drop", "1"))
+            elif m == "insert" and n.args and _int_const(n.args[0]) == 0:
+                out.append((st, "prepend", "1"))
+            elif m in ("insert", "remove", "clear", "reverse", "sort") or (m == "pop" and n.args and _int_const(n.args[0]) != -1):
+                out.append((st, "unknown", ""))
+        elif isinstance(n, ast.AugAssign) and isinstance(n.target, ast.Name) and n.target.id == B and not isinstance(n.op, ast.Add):
+            out.append((n, "unknown", ""))
+    return out
+
+
+def _offset_edits(fi: FunctionInfo, O: str):
+    """(stmt, kind, amount) with kind = adv (relative, amount text) | set (absolute int) | init."""
+    out = []
+    for n in fi.local_nodes():
+        if isinstance(n, ast.AugAssign) and isinstance(n.target, ast.Name) and n.target.id == O:
+            if isinstance(n.op, ast.Add):
+                out.append((n, "adv", unparse(n.value)))
+            elif isinstance(n.op, ast.Sub):
+                out.append((n, "adv", "-" + unparse(n.value) if _int_const(n.value) is None else str(-_int_const(n.value))))
+            else:
+                out.append((n, "unknown", ""))
+        elif isinstance(n, ast.Assign) and any(isinstance(t, ast.Name) and t.id == O for t in n.targets):
+            v = n.value
+            c = _int_const(v)
+            if c is not None:
+                out.append((n, "set", c))
+            elif isinstance(v, ast.BinOp) and isinstance(v.op, (ast.Add, ast.Sub)) and isinstance(v.left, ast.Name) and v.left.id == O:
+                k = unparse(v.right)
+                if isinstance(v.op, ast.Sub):
+                    k = str(-_int_const(v.right)) if _int_const(v.right) is not None else "-" + k
+                out.append((n, "adv", k))
+            elif any(isinstance(x, ast.Name) and x.id == O for x in ast.walk(v)):
+                out.append((n, "unknown", ""))
+            else:
+                out.append((n, "init", ""))
+    return out
+
+
+@rule(R6)
+def r6_body_offset_pairing(corpus: Corpus, rep: Report, tier: str):
+    rep.rule(R6, "wherever leading lines are removed from / put in front of the directive body, body_offset moves by the same number of lines in the same block")
+    d = corpus.mod("parsers.directives")
+    res = d.cls("DirectiveParsingResult")
+    fields = [s.target.id for s in res.node.body if isinstance(s, ast.AnnAssign) and isinstance(s.target, ast.Name)]
+    if "body" not in fields or "body_offset" not in fields:
+        rep.error(R6, "DirectiveParsingResult has no body / body_offset field")
+        return
+    n_ctor = 0
+    for fi in _funcs(corpus):
+        for call in [n for n in fi.local_nodes() if isinstance(n, ast.Call)]:
+            if not fi.module.resolve(dotted(call.func) or "").endswith("parsers.directives.DirectiveParsingResult"):
+                continue
+            n_ctor += 1
+            b = arg_or_kw(call, fields.index("body"), "body")
+            o = arg_or_kw(call, fields.index("body_offset"), "body_offset")
+            if not (isinstance(b, ast.Name) and isinstance(o, ast.Name)):
+                rep.error(R6, f"{fi.module.site(call)}: body / body_offset of DirectiveParsingResult are not plain local names; pairing not understood")
+                continue
+            B, O = b.id, o.id
+            be, oe = _head_edits(fi, B), _offset_edits(fi, O)
+            for st, kind, _ in be + oe:
+                if kind == "unknown":
+                    rep.error(R6, f"{fi.module.site(st)}: `{short(st, 60)}` changes `{B if (st, kind, _) in be else O}` in a way the pairing rule does not understand")
+            if any(kind == "unknown" for _, kind, _ in be + oe):
+                continue
+            by_list_o: dict = {}
+            for st, kind, amt in oe:
+                by_list_o.setdefault(_stmt_list_of(st)[0], []).append((st, kind, amt))
+            by_list_b: dict = {}
+            for st, kind, amt in be:
+                by_list_b.setdefault(_stmt_list_of(st)[0], []).append((st, kind, amt))
+            reported_o: set[int] = set()
+            for st, kind, amt in be:
+                lk, _p = _stmt_list_of(st)
+                sibs = by_list_o.get(lk, [])
+                site = fi.module.site(st)
+                if kind == "init":
+                    continue
+                if kind == "drop":
+                    advs = [(s2, a2) for s2, k2, a2 in sibs if k2 == "adv"]
+                    k = f"{fi.fq}|{short(st, 50)} ~ {short(advs[0][0], 40) if advs else 'no offset update in the same block'}"
+                    if len(advs) == 1 and advs[0][1] == amt and not any(k2 == "set" for _, k2, _ in sibs):
+                        rep.ok(R6, k, site, f"{amt} leading line(s) removed, offset advanced by {advs[0][1]}")
+                        reported_o.add(id(advs[0][0]))
+                    elif advs:
+                        for s2, _a in advs:
+                            reported_o.add(id(s2))
+                        rep.violation(R6, k, site, f"`{short(st, 50)}` removes {amt} leading body line(s) but the offset moves by {', '.join(a for _, a in advs)} in the same block: every line of the body is reported {'' if len(advs) > 1 else 'off by the difference'}")
+                    else:
+                        # an update further out (the removal sits in a loop / branch of its own)?
+                        outer = [(s2, a2) for s2, k2, a2 in oe if k2 == "adv" and any(a is s2 or (_stmt_list_of(s2)[0] == _stmt_list_of(a)[0]) for a in ancestors(st) if isinstance(a, ast.stmt))]
+                        loops = [a for a in ancestors(st) if isinstance(a, (ast.While, ast.For))]
+                        outer = [(s2, a2) for s2, a2 in outer if not any(s2 in ast.walk(lp) for lp in loops[:1])] if loops else outer
+                        if outer:
+                            for s2, _a in outer:
+                                reported_o.add(id(s2))
+                            how = "inside a loop (any number of lines)" if loops else "in a nested branch"
+                            rep.violation(R6, f"{fi.fq}|{short(st, 50)} ~ {short(outer[0][0], 40)} outside its block", site, f"`{short(st, 50)}` removes leading body lines {how} while `{short(outer[0][0], 40)}` runs once outside it: with more lines removed than counted, every nested line is reported too low")
+                        else:
+                            rep.violation(R6, k, site, f"`{short(st, 50)}` removes {amt} leading body line(s) and body_offset is not advanced: every nested line is reported {amt} too low")
+                elif kind == "prepend":
+                    sets = [(s2, a2) for s2, k2, a2 in sibs if k2 == "set"]
+                    advs = [(s2, a2) for s2, k2, a2 in sibs if k2 == "adv"]
+                    partner = (sets or advs or [(None, None)])[0]
+                    k = f"{fi.fq}|{short(st, 50)} ~ {short(partner[0], 40) if partner[0] is not None else 'no offset update in the same block'}"
+                    for s2, _a in sets + advs:
+                        reported_o.add(id(s2))
+                    want = -int(amt)
+                    if len(sets) == 1 and not advs and sets[0][1] == want:
+                        rep.ok(R6, k, site, f"the line put in front is the directive line itself: offset {want}")
+                    elif len(advs) == 1 and not sets and advs[0][1] == str(want):
+                        rep.ok(R6, k, site, f"offset moved by {want}")
+                    elif sets and not advs:
+                        rep.violation(R6, k, site, f"`{short(st, 50)}` puts the text of the directive line in front of the body, so body[0] lies {amt} line(s) BEFORE the first content line and the offset must be {want}; `{short(sets[0][0], 40)}` makes the nested parse report the first-line text and everything after it {sets[0][1] - want} line(s) too high")
+                    else:
+                        rep.violation(R6, k, site, f"`{short(st, 50)}` puts {amt} line(s) in front of the body without moving body_offset back by {amt}")
+            for st, kind, amt in oe:
+                if id(st) in reported_o or kind == "init":
+                    continue
+                lk, _p = _stmt_list_of(st)
+                sib_b = by_list_b.get(lk, [])
+                if kind == "set" and any(k2 == "init" for _, k2, _ in sib_b):
+                    continue  # initialisation next to the initial split of the content
+                k = f"{fi.fq}|{short(st, 50)} ~ no change of the body head in the same block"
+                if kind == "adv":
+                    rep.violation(R6, k, fi.module.site(st), f"`{short(st, 50)}` moves body_offset although no leading line is removed from `{B}` in the same block")
+                else:
+                    rep.error(R6, f"{fi.module.site(st)}: `{short(st, 50)}` resets body_offset outside an initialisation or a prepend; not understood")
+    if n_ctor == 0:
+        rep.error(R6, "no construction of DirectiveParsingResult found")
+    rep.expect_min(R6, 2, "head edits of the directive body in parse_directive_text (blank-line strip, first-line insert)")
+
+
+RULES = [r1_stamping, r2_line_kinds, r3_shift_once, r4_lossy_round_trip, r5_source_path, r6_body_offset_pairing]
 
 
 # ---------------------------------------------------------------------------
@@ -1556,8 +1775,7 @@ def mutants(corpus: Corpus):
     st = _stamp_stmt(f, "para")
     if st is not None:
         add("c04-revert-table-cell-paragraph-stamp", R1, base, st, "pass", "render_table_row")
-    else:
-        out.append(("c04-revert-table-cell-paragraph-stamp", stale))
+    # else: known finding F13b (unrepaired): nothing to revert
     f = mk.func("MockState.block_quote")
     st = find_stmt(f, lambda s: isinstance(s, ast.Assign) and any(isinstance(t, ast.Attribute) and t.attr in ("line", "source") and unparse(t.value) == "blockquote" for t in _store_targets(s)))
     if st is not None:
@@ -1602,16 +1820,14 @@ def mutants(corpus: Corpus):
     a = arg_or_kw(c, 1, "lineno") if c else None
     if a is not None and unparse(a) != "startline + 1":
         add("c04-revert-include-startline-plus-one", R2, mk, a, "startline + 1", "MockIncludeDirective.run")
-    else:
-        out.append(("c04-revert-include-startline-plus-one", stale))
+    # else: known finding F11 (unrepaired): nothing to revert
     f = base.func("DocutilsRenderer.render_substitution")
     for i in (0, 1):
         c = _nrt_call(f, i)
         a = arg_or_kw(c, 1, "lineno") if c else None
         if a is not None and unparse(a) != "position":
             add(f"c04-revert-substitution-on-line-{i + 1}", R2, base, a, "position", "render_substitution")
-        else:
-            out.append((f"c04-revert-substitution-on-line-{i + 1}", stale))
+        # else: known finding F11b (unrepaired): nothing to revert
     f = mk.func("MockInliner.parse")
     c = _nrt_call(f)
     a = arg_or_kw(c, 1, "lineno") if c else None
@@ -1666,12 +1882,45 @@ def mutants(corpus: Corpus):
     f = dm.func("parse_directive_text")
     zs = sorted((s for s in f.local_nodes() if isinstance(s, ast.Assign) and unparse(s.targets[0]) == "content_offset" and isinstance(s.value, ast.Constant) and s.value.value == 0), key=lambda s: s.lineno)
     add("c04-offset-across-join-roundtrip", R4, dm, zs[0].value if zs else None, 'len(content.splitlines()) - len("\\n".join(body_lines).splitlines())', "parse_directive_text")
-    st = find_stmt(f, lambda s: isinstance(s, ast.Assign) and unparse(s.targets[0]) == "content_offset" and not isinstance(s.value, ast.Constant))
-    want = "len(content.splitlines()) - len(body_lines)"
-    if st is not None and unparse(st.value) != want:
-        add("c04-revert-body-offset-by-difference", R4, dm, st.value, want, "parse_directive_text")
+    # revert of 2629f06 (F12): the lossless re-join `"".join(ln + "\n" for ln in X)` back to "\n".join(X), once per branch
+    fo = dm.func("_parse_directive_options")
+    rejoin = sorted(
+        (
+            n
+            for n in fo.local_nodes()
+            if isinstance(n, ast.Call) and isinstance(n.func, ast.Attribute) and n.func.attr == "join" and isinstance(n.func.value, ast.Constant) and n.func.value.value == "" and n.args and isinstance(n.args[0], ast.GeneratorExp)
+        ),
+        key=lambda c: c.lineno,
+    )
+    for i, c in enumerate(rejoin[:2]):
+        add(f"c04-revert-lossless-rejoin-{i + 1}", R4, dm, c, f'"\\n".join({unparse(c.args[0].generators[0].iter)})', "parse_directive_text")
+    if not rejoin:
+        st = find_stmt(f, lambda s: isinstance(s, ast.Assign) and unparse(s.targets[0]) == "content_offset" and not isinstance(s.value, (ast.Constant, ast.UnaryOp)))
+        want = "len(content.splitlines()) - len(body_lines)"
+        if st is not None and unparse(st.value) != want:
+            add("c04-revert-body-offset-by-difference", R4, dm, st.value, want, "parse_directive_text")
+        else:
+            out.append(("c04-revert-lossless-rejoin", "neither the lossless re-join nor a structural offset found in the options parser"))
+
+    # ---- R6
+    strip_if = find_node(f, lambda n: isinstance(n, ast.If) and any(isinstance(s, ast.Assign) and unparse(s) == "body_lines = body_lines[1:]" for s in n.body))
+    drop = next((s for s in (strip_if.body if strip_if is not None else []) if isinstance(s, ast.Assign)), None)
+    adv = next((s for s in (strip_if.body if strip_if is not None else []) if isinstance(s, ast.AugAssign)), None)
+    ind = " " * (drop.col_offset if drop is not None else 0)
+    add("c04-all-leading-blank-lines-stripped-offset-once", R6, dm, drop, f"while body_lines and not body_lines[0].strip():\n{ind}    body_lines = body_lines[1:]", "outside its block", canary=True)
+    add("c04-blank-line-stripped-offset-not-advanced", R6, dm, adv, "pass", "no offset update")
+    if strip_if is not None and adv is not None and drop is not None:
+        ind0 = " " * strip_if.col_offset
+        add("c04-offset-advanced-unconditionally", R6, dm, strip_if, f"content_offset += 1\n{ind0}if {unparse(strip_if.test)}:\n{ind0}    body_lines = body_lines[1:]", "parse_directive_text")
     else:
-        out.append(("c04-revert-body-offset-by-difference", stale))
+        out.append(("c04-offset-advanced-unconditionally", "blank-line strip block not found"))
+    ins = find_stmt(f, lambda s: isinstance(s, ast.Expr) and unparse(s).startswith("body_lines.insert(0,"))
+    if ins is not None:
+        lst = getattr(parent(ins), "body", [])
+        setst = next((s for s in lst if isinstance(s, ast.Assign) and unparse(s.targets[0]) == "content_offset"), None)
+        if setst is not None and unparse(setst.value) != "0":
+            add("c04-revert-first-line-body-offset", R6, dm, setst.value, "0", "insert(0")
+        # else: unrepaired (reported as a violation / known finding): nothing to revert
 
     # ---- R5
     f = mk.func("MockIncludeDirective.run")
